@@ -201,6 +201,8 @@ def main(argv=None):
             c_ = _CC[unit['qualname']]
             if c_.extra.get('method') or c_.closure_env or unit['error'] or unit['undecided']:
                 continue
+            if '@' in unit['qualname'] or any(p[1][0] == 'ref' for p in c_.params):
+                continue        # needs an object / an import-time variant: exercised by the scenario stand-ins instead
             if any(o['verdict'] != 'proved' and not o['expect_sat'] for o in unit['obls']):
                 continue
             job = job_for(unit['qualname'], unit['instance'], 'search')
